@@ -4,6 +4,7 @@ from __future__ import annotations
 
 import ast
 import math
+import re
 
 from .. import cfg, core, mirfront, mirsym, rustconst
 from ..core import nun, pmod, un
@@ -562,6 +563,97 @@ def _prim_tabulate(ctx) -> None:
     tab("local_time", lt_cases, lt_want, lambda a: f"local_time{a}")
 
 
+def _rs_prim_tabulate(ctx, mir) -> None:
+    """RSPRIM.tabulated: the compiled calendar primitives (rust/src/helpers.rs) decided on values: the MIR path summaries of is_leap,
+    days_in_year, is_long_year and week_day (symbolic execution of the basic blocks, calls between them followed) are evaluated by
+    the checker's interpreter - Rust's truncating `/` and `%` modelled as such - for the years 1..2800 and 9999 (every year in the
+    thorough tier) and for week_day the first, 28th and last day of every month of every 7th year plus every day of four years,
+    and compared with the standard library (calendar.isleap, ISO week 53 of 28 December, date.isoweekday)."""
+    import calendar
+    import datetime as _dt
+    import math
+    from ..rules import minieval
+    if mir is None:
+        return
+    rel = "rust/src/helpers.rs"
+    sf = mirsym.struct_fields_from_source((core.REPO / rel).read_text())
+    cache: dict[str, tuple] = {}
+    consts = {}
+    for k in ("DAY_OF_WEEK_TABLE", "DAYS_PER_N_YEAR", "DAYS_PER_L_YEAR", "DAYS_PER_MONTHS", "MONTHS_OFFSETS"):
+        try:
+            consts[k] = core.const("constants", k)          # TABLES.py-rs establishes that the Rust tables are these
+        except Exception:       # noqa: BLE001
+            pass
+
+    class _TruncDiv(ast.NodeTransformer):
+        """Rust integer `/` and `%` truncate toward zero: rewritten as calls the evaluator answers that way"""
+
+        def visit_BinOp(self, n):
+            self.generic_visit(n)
+            if isinstance(n.op, (ast.Div, ast.FloorDiv)):
+                return ast.Call(ast.Name("__tdiv", ast.Load()), [n.left, n.right], [])
+            if isinstance(n.op, ast.Mod):
+                return ast.Call(ast.Name("__trem", ast.Load()), [n.left, n.right], [])
+            return n
+
+    def summaries(nm):
+        if nm not in cache:
+            f = mir.fn(nm)
+            out = []
+            for p_ in mirsym.Sym(f, sf).run(0, mirsym.NEVER):
+                conds = []
+                for v, k in p_.conds:
+                    cb = mirsym.cond_bool(v, k)
+                    if cb is None:
+                        raise core.Unsupported(f"{nm}: non-boolean branch")
+                    conds.append((_TruncDiv().visit(core.clone(cb[0])), cb[1]))
+                r = p_.state.get("_0")
+                if not isinstance(r, ast.AST):
+                    raise core.Unsupported(f"{nm}: no return value on a path")
+                out.append((conds, _TruncDiv().visit(core.clone(r))))
+            nparams = len(re.findall(r"_\d+: ", f.sig.split("->")[0])) if hasattr(f, "sig") else 0
+            names = [f.names().get(f"_{i + 1}", f"_{i + 1}") for i in range(nparams)]
+            cache[nm] = (names, out)
+        return cache[nm]
+
+    def rs(nm, *args):
+        names, paths = summaries(nm)
+        env = dict(zip(names, args))
+        live = [r for conds, r in paths if all(bool(minieval.ev(c, env, G)) == pol for c, pol in conds)]
+        if len(live) != 1:
+            raise core.Unsupported(f"{nm}{args}: {len(live)} paths apply")
+        return minieval.ev(live[0], env, G)
+    tdiv = lambda a, b: int(a / b) if abs(a) < 2**52 else (abs(a) // abs(b)) * (1 if (a >= 0) == (b >= 0) else -1)      # noqa: E731
+    G = {"$globals": {**consts, "__tdiv": tdiv, "__trem": lambda a, b: int(math.fmod(a, b)), "unsigned_abs": abs, "abs": abs,
+                      "p": lambda y: rs("p", y), "is_leap": lambda y: rs("helpers::is_leap", y), "is_long_year": lambda y: rs("helpers::is_long_year", y),
+                      "days_in_year": lambda y: rs("helpers::days_in_year", y), "from": lambda x: x, "usize": int, "i32": int, "u32": int}}
+    deep = ctx.tier == "thorough"
+    years = list(range(1, 10000)) if deep else list(range(1, 2801)) + [9999]
+    wd_cases = [(y, mo, d) for y in list(range(1, 2801, 7)) + [9999] for mo in range(1, 13) for d in (1, 28, calendar.monthrange(y, mo)[1])]
+    for y in (range(1900, 2101) if deep else (1999, 2000, 2001, 2024)):
+        wd_cases += [(y, mo, d) for mo in range(1, 13) for d in range(1, calendar.monthrange(y, mo)[1] + 1)]
+    for nm, cases, want in (("helpers::is_leap", [(y,) for y in years], lambda y: calendar.isleap(y)),
+                            ("helpers::days_in_year", [(y,) for y in years], lambda y: 366 if calendar.isleap(y) else 365),
+                            ("helpers::is_long_year", [(y,) for y in years], lambda y: _dt.date(y, 12, 28).isocalendar()[1] == 53),
+                            ("helpers::week_day", wd_cases, lambda y, mo, d: _dt.date(y, mo, d).isoweekday())):
+        short = nm.split("::")[-1]
+        bad, n = [], 0
+        try:
+            for args in cases:
+                n += 1
+                got = rs(nm, *args)
+                w = want(*args)
+                if got != w:
+                    bad.append(f"{short}{args} = {got!r} (expected {w!r})")
+        except (core.Unsupported, core.AnchorMissing, KeyError, TypeError, AttributeError, IndexError, ValueError, ZeroDivisionError, RecursionError) as e:
+            ctx.unverified("RSPRIM.tabulated", f"rs:{short}", f"outside the evaluator: {type(e).__name__}: {e}", rel)
+            continue
+        ctx.ob("RSPRIM.tabulated", f"rs:{short}", not bad, f"{n} inputs evaluated on the MIR path summaries: " + (f"wrong: {bad[:3]}" if bad else "equal to the standard library on every input"), rel)
+        if not bad:
+            ctx.established(("SIBLING", "FORMULA"), f"py-vs-rs:{short}", "RSPRIM.tabulated + PRIM.tabulated")
+            ctx.established(("SIBLING", "FORMULA"), f"rs:{short}", "RSPRIM.tabulated")
+
+
 def run(ctx) -> None:
     ctx.explanation = EXPLANATION
     ctx.step(_prim_tabulate, ctx)
@@ -572,6 +664,7 @@ def run(ctx) -> None:
         mir = mirfront.load()
     except mirfront.MirUnavailable as e:
         ctx.unverified("RUST", "helpers.rs", f"MIR unavailable, Rust clauses not checked: {e}", "rust/")
+    ctx.step(_rs_prim_tabulate, ctx, mir)
     ctx.step(_siblings, ctx, mir)
     ctx.step(_local_time, ctx, mir)
     ctx.step(_getters, ctx)
